@@ -65,7 +65,7 @@ pub fn expected_facts(f: &Facts, path: PathSel) -> Facts {
             g
         }
         PathSel::Bin(v) => restrict_to_version(f, v),
-        PathSel::RoundTrip => f.clone(),
+        PathSel::RoundTrip => restrict_to_version(f, 3),
         // the facts of a sub-ontology depend on the retained terms: see `build_case`
         PathSel::Sub { .. } => f.clone(),
         PathSel::Jax | PathSel::JaxT => {
